@@ -13,6 +13,22 @@ out = [s.rstrip(), "", "-" * 80, "", MARK, "",
        "Each subsection is the builder's own record for that property: what is modelled, the theorems, "
        "hypotheses, what is trusted, tie facts, generator coverage, findings, mutation self-tests and the "
        "evaluation against independently seeded changes (kept under `seeded/`).", ""]
+# findings register (from known_findings.json)
+import json
+kf = os.path.join(V, "known_findings.json")
+if os.path.exists(kf):
+    fs = json.load(open(kf)).get("findings", [])
+    out += ["### 14.00 Findings register (from `known_findings.json`)", "",
+            "Genuine defects of the pinned tree found while building the checks. `fixed` = repaired by the named "
+            "`fix:` commit in `/repo` (the models describe the repaired code; the old witnesses run first in the "
+            "property's corpus, so the check reports them again if they return). `known` = recorded, not repaired: "
+            "the owning check prints `KNOWN-FINDING` for exactly that witness shape and exits 0; any other violation "
+            "of the same property is still reported.", "",
+            "| id | property | status | fix commit | what |", "|---|---|---|---|---|"]
+    for f in fs:
+        what = " ".join(str(f.get("what", "")).split()).replace("|", "\\|")
+        out.append(f"| {f['id']} | {f['property']} | {f['status']} | {f.get('commit', '') or '—'} | {what} |")
+    out.append("")
 nd = os.path.join(V, "notes")
 for fn in sorted(os.listdir(nd)) if os.path.isdir(nd) else []:
     if not re.match(r"C\d\d\.md$", fn):
